@@ -1,0 +1,66 @@
+//go:build verif
+
+// Contracts for package data, checked by /verif/govc (comment-only).
+package data
+
+// Truthiness follows the language table: null, undefined, false, 0, 0.0, NaN
+// and "" are falsy; everything else is truthy (C20, C01).
+
+//@ func Undefined.Truthy
+//@   props C20 C01
+//@   ensures !result
+//@ func Null.Truthy
+//@   props C20 C01
+//@   ensures !result
+//@ func Bool.Truthy
+//@   props C20 C01
+//@   ensures result == v
+//@ func Int.Truthy
+//@   props C20 C01
+//@   ensures result == (v != 0)
+//@ func Float.Truthy
+//@   props C20 C01
+//@   ensures[nan-is-falsy] result == (v != 0.0 && !isNaN(v))
+//@ func String.Truthy
+//@   props C20 C01
+//@   ensures result == (len(v) != 0)
+//@ func List.Truthy
+//@   props C20 C01
+//@   ensures result
+//@ func Map.Truthy
+//@   props C20 C01
+//@   ensures result
+
+// Equality is strict between kinds except that Int and Float compare
+// numerically (as float64), and it is symmetric: the Int-vs-Float arm and the
+// Float-vs-Int arm carry the same formula with the operands swapped.
+
+//@ func Undefined.Equals
+//@   props C20 C01
+//@   ensures result == typeis(other, Undefined)
+//@ func Null.Equals
+//@   props C20 C01
+//@   ensures result == typeis(other, Null)
+//@ func Bool.Equals
+//@   props C20 C01
+//@   ensures typeis(other, Bool) ==> result == (v == unbox(other, Bool))
+//@   ensures !typeis(other, Bool) ==> !result
+//@ func Int.Equals
+//@   props C20 C01
+//@   ensures[int-int] typeis(other, Int) ==> result == (v == unbox(other, Int))
+//@   ensures[int-float] typeis(other, Float) ==> result == (float64(v) == unbox(other, Float))
+//@   ensures[strict] !typeis(other, Int) && !typeis(other, Float) ==> !result
+//@ func Float.Equals
+//@   props C20 C01
+//@   ensures[float-float] typeis(other, Float) ==> result == (v == unbox(other, Float))
+//@   ensures[float-int] typeis(other, Int) ==> result == (float64(unbox(other, Int)) == v)
+//@   ensures[strict] !typeis(other, Int) && !typeis(other, Float) ==> !result
+//@ func String.Equals
+//@   props C20 C01
+//@   ensures[strict] !typeis(other, String) ==> !result
+//@ func List.Equals
+//@   props C20 C01
+//@   ensures[strict] !typeis(other, List) ==> !result
+//@ func Map.Equals
+//@   props C20 C01
+//@   ensures[strict] !typeis(other, Map) ==> !result
